@@ -50,6 +50,29 @@ impl Prop for OwnedSerde {
             Err(e) => fail!("serde/fastq-owned/deserialize", "deserialisation failed: {}", e),
         };
         ensure!(a == b, "serde/fastq-owned/not-equal", "{:?} came back as {:?}", a, b);
+        // the same through a positional (not self-describing) format, singly and as a list
+        let fa = fasta::OwnedRecord { head: c.head.0.clone(), seq: c.seq.0.clone() };
+        let list = vec![a.clone(), fastq::OwnedRecord { head: c.qual.0.clone(), seq: vec![], qual: vec![] }, a.clone()];
+        let falist = vec![fa.clone(), fasta::OwnedRecord { head: c.qual.0.clone(), seq: vec![] }, fa.clone()];
+        macro_rules! positional {
+            ($v:expr, $t:ty, $name:expr) => {{
+                let bytes = match crate::minibin::to_vec(&$v) {
+                    Ok(b) => b,
+                    Err(e) => fail!(format!("serde-positional/{}/serialize", $name), "serialisation failed: {}", e),
+                };
+                match crate::minibin::from_slice::<$t>(&bytes) {
+                    Ok(back) => ensure!(back == $v, format!("serde-positional/{}/not-equal", $name), "{:?} came back as {:?} from a positional (bincode-like) format", $v, back),
+                    Err(e) => fail!(format!("serde-positional/{}/deserialize", $name), "deserialisation of {:?} from a positional (bincode-like) format failed: {}", $v, e),
+                }
+            }};
+        }
+        positional!(fa, fasta::OwnedRecord, "fasta-owned");
+        positional!(a, fastq::OwnedRecord, "fastq-owned");
+        positional!(falist, Vec<fasta::OwnedRecord>, "fasta-owned-list");
+        positional!(list, Vec<fastq::OwnedRecord>, "fastq-owned-list");
+        if c.seq.is_empty() || c.qual.is_empty() {
+            ctx.class("owned record with an empty field");
+        }
         Ok(())
     }
 }
@@ -118,6 +141,24 @@ where
         // a second generation: the copy serialises to the same text
         let s2 = serde_json::to_vec(&back).unwrap_or_default();
         ensure!(s2 == s, format!("serde/{}-set/not-idempotent", name), "re-serialising the deserialised set gives different text");
+        // the same through a positional (not self-describing) format
+        let bytes = match crate::minibin::to_vec(&set) {
+            Ok(b) => b,
+            Err(e) => fail!(format!("serde-positional/{}-set/serialize", name), "serialisation failed: {}", e),
+        };
+        let back2: R::Set = match crate::minibin::from_slice(&bytes) {
+            Ok(b) => b,
+            Err(e) => fail!(format!("serde-positional/{}-set/deserialize", name), "deserialisation from a positional (bincode-like) format failed: {}", e),
+        };
+        ensure!(
+            R::set_len(&back2) == len && R::set_recs(&back2) == before,
+            format!("serde-positional/{}-set/records-differ", name),
+            "positional format: {} records before, {} after; before {:?}\n  after {:?}",
+            len,
+            R::set_len(&back2),
+            before.iter().take(4).collect::<Vec<_>>(),
+            R::set_recs(&back2).iter().take(4).collect::<Vec<_>>()
+        );
         if filled {
             prev_len = len;
         }
@@ -132,8 +173,11 @@ impl Prop for SetSerde {
     type Case = SetCase;
     fn strategy(&self, _tier: Tier) -> BoxedStrategy<SetCase> {
         let per = |f: Format| {
-            (gen::input_and_cap(f, gen::any_input(f, true)), vec(prop_oneof![2 => Just(0u8), 3 => 1u8..6], 0..5))
-                .prop_map(move |((input, cap), batch)| SetCase { format: f, input, cap, batch })
+            let small = (gen::input_and_cap(f, gen::any_input(f, true)), vec(prop_oneof![2 => Just(0u8), 3 => 1u8..6], 0..5))
+                .prop_map(move |((input, cap), batch)| SetCase { format: f, input, cap, batch });
+            // record sets holding more than 64 KiB of data (capacity above the default, or exact reads of many records)
+            let big = (gen::big_input(f), gen::big_cap(), vec(prop_oneof![2 => Just(0u8), 1 => 20u8..200], 0..3)).prop_map(move |(input, cap, batch)| SetCase { format: f, input, cap, batch });
+            prop_oneof![40 => small, 1 => big]
         };
         boxed(prop_oneof![per(Format::Fasta), per(Format::Fastq)])
     }
@@ -149,7 +193,7 @@ impl Prop for SetSerde {
     }
 }
 
-pub const RULE: &str = "sub-check owned-records: fasta/fastq OwnedRecord with arbitrary bytes (0..40 each) -> serde_json -> equal. Sub-check record-sets: (format, any input, capacity, list of batch sizes) -> one reused RecordSet is refilled (plain and exact reads, so later batches are smaller than earlier ones and stale offsets remain beyond its length) and after every call serialised with serde_json and deserialised: same len(), same records through every accessor, idempotent re-serialisation; also after the end / an error. Non-trivial = input with >= 2 records (sets) / non-empty fields (owned). Distinct = hash(case).";
+pub const RULE: &str = "sub-check owned-records: fasta/fastq OwnedRecord with arbitrary bytes (0..40 each) -> serde_json and a positional bincode-like format (singly and inside a list) -> equal. Sub-check record-sets: (format, any input, capacity, list of batch sizes) -> one reused RecordSet is refilled (plain and exact reads, so later batches are smaller than earlier ones and stale offsets remain beyond its length) and after every call serialised with serde_json and with a positional bincode-like format (harness/src/minibin.rs) and deserialised: same len(), same records through every accessor, idempotent re-serialisation; also after the end / an error. Non-trivial = input with >= 2 records (sets) / non-empty fields (owned). Distinct = hash(case).";
 
 pub fn run(tier: Tier) -> i32 {
     let mut run = Run::new("C19", tier, "exploration");
@@ -159,7 +203,7 @@ pub fn run(tier: Tier) -> i32 {
     let q = SetSerde;
     run.replays("record-sets", &q);
     run.generated("record-sets", &q, tier.pick(40_000, 1_500_000));
-    run.finish(RULE, &["serde_json is the serialiser (self-describing text format); binary formats are not exercised"])
+    run.finish(RULE, &["two serialisers: serde_json (self-describing) and a minimal positional format written for this harness (bincode-like); other formats are not exercised"])
 }
 
 pub fn replay(run: &mut Run, file: &std::path::Path) -> Option<bool> {
